@@ -2,10 +2,12 @@ package httpgate
 
 import (
 	"bytes"
+	"context"
 	"encoding/json"
 	"fmt"
 	"net/url"
 	"os"
+	"os/exec"
 	"sort"
 	"strings"
 	"sync"
@@ -60,12 +62,13 @@ type Case struct {
 	Req
 	W     bool     `json:"w"`
 	Stack string   `json:"stack"`
+	UI    bool     `json:"ui"`
 	Raw   []string `json:"raw,omitempty"`
 	Dec   []string `json:"dec,omitempty"`
 	Exp   []Resp   `json:"exp,omitempty"`
 }
 
-func (c Case) key() string { return fmt.Sprintf("%s|%v|%s", c.Req.key(), c.W, c.Stack) }
+func (c Case) key() string { return fmt.Sprintf("%s|%v|%s|%v", c.Req.key(), c.W, c.Stack, c.UI) }
 
 // Multi is a history (HttpGateHist HEmitInv) or a concurrent pair (HttpGateConc CEmitInv).
 type Multi struct {
@@ -86,10 +89,24 @@ func (m Multi) key() string {
 type CaseLine struct {
 	K     string `json:"k"`
 	Stack string `json:"stack"`
+	UI    bool   `json:"ui"`
 	W     bool   `json:"w"`
 	Req
 	Obs []Obs `json:"obs"`
+	// lines from a construction-order child process: the settings of the servers built in that
+	// process, in order, and which of them served this request (1-based)
+	Order []bool `json:"order,omitempty"`
+	Inst  int    `json:"inst,omitempty"`
 }
+
+// ProcOrder is one construction order printed by HttpGateProc with the requests to send to
+// every instance.
+type ProcOrder struct {
+	Order []bool `json:"order"`
+	Reqs  []Req  `json:"reqs"`
+}
+
+func (p ProcOrder) key() string { return fmt.Sprint(p.Order) }
 
 type HistLine struct {
 	K     string `json:"k"`
@@ -112,10 +129,12 @@ type ConcLine struct {
 
 // plan of one universe (one seeded choice of parameter values and tokens)
 type plan struct {
-	stacks   []string // handler stacks of the single-request domain
-	maxSpell int      // length of spelling sequences
-	reps     int      // how often each request is sent (each time to another server instance)
-	hdr      bool     // cross the header classes with the documented spelling
+	stacks     []string // handler stacks of the single-request domain
+	uiModes    []bool   // server modes: SWAGGER_UI unset / set when the server is built
+	buildDepth int      // construction orders of that many servers, each in a fresh child process
+	maxSpell   int      // length of spelling sequences
+	reps       int      // how often each request is sent (each time to another server instance)
+	hdr        bool     // cross the header classes with the documented spelling
 	// histories on one instance
 	histDepth     int
 	histSpellings []string
@@ -129,25 +148,26 @@ type plan struct {
 }
 
 var bothStacks = []string{"server", "gate"}
+var bothBools = []bool{false, true}
 
 func plansFor(thorough bool) []plan {
 	if thorough {
 		return []plan{
-			{stacks: bothStacks, maxSpell: 2, reps: 3, hdr: true,
+			{stacks: bothStacks, uiModes: bothBools, buildDepth: 3, maxSpell: 2, reps: 3, hdr: true,
 				histDepth: 2, histSpellings: []string{"exact", "encodedLetter", "trailingSlash", "query"}, histStacks: bothStacks,
 				concW: []bool{false, true}, concAll: true, concStacks: bothStacks, concDur: 3 * time.Second},
-			{stacks: []string{"server"}, maxSpell: 3, reps: 3, hdr: true,
+			{stacks: []string{"server"}, uiModes: []bool{true}, maxSpell: 3, reps: 3, hdr: true,
 				histDepth: 3, histSpellings: []string{"exact"}, histStacks: []string{"gate"}},
-			{stacks: bothStacks, maxSpell: 2, reps: 5, hdr: true,
+			{stacks: bothStacks, uiModes: bothBools, buildDepth: 2, maxSpell: 2, reps: 5, hdr: true,
 				histDepth: 2, histSpellings: []string{"exact"}, histHdr: true, histStacks: bothStacks,
 				concW: []bool{false}, concStacks: bothStacks, concDur: 5 * time.Second},
 		}
 	}
 	return []plan{
-		{stacks: bothStacks, maxSpell: 1, reps: 2, hdr: true,
+		{stacks: bothStacks, uiModes: bothBools, buildDepth: 2, maxSpell: 1, reps: 2, hdr: true,
 			histDepth: 2, histSpellings: []string{"exact"}, histStacks: bothStacks,
 			concW: []bool{false}, concStacks: bothStacks, concDur: 1500 * time.Millisecond},
-		{stacks: []string{"server"}, maxSpell: 2, reps: 2},
+		{stacks: []string{"server"}, uiModes: []bool{true}, maxSpell: 2, reps: 2},
 	}
 }
 
@@ -171,11 +191,13 @@ type Gen struct {
 	Cases    []Case
 	Hists    []Multi
 	Concs    []Multi
+	Procs    []ProcOrder
 	States   int
 	Distinct int
 	SpecViol []string
 	Wall     float64
 	Runs     []map[string]any
+	mu       sync.Mutex
 }
 
 func runMC(c *core.Ctx, u *Universe, base, cfg string, g *Gen) (*tlc.Result, error) {
@@ -191,6 +213,8 @@ func runMC(c *core.Ctx, u *Universe, base, cfg string, g *Gen) (*tlc.Result, err
 	if res.Errored != "" || res.TimedOut || res.Distinct == 0 {
 		return nil, fmt.Errorf("TLC (%s) did not complete: %s\n%s", base, res.Errored, res.Tail(30))
 	}
+	g.mu.Lock()
+	defer g.mu.Unlock()
 	if res.Violation {
 		g.SpecViol = append(g.SpecViol, base+": "+res.ViolatedWhat)
 	} else if !res.Completed {
@@ -228,26 +252,99 @@ func decodeTagged[T any](res *tlc.Result, tag string, key func(T) string) ([]T, 
 // on one instance, concurrent pairs) and print every case.
 func Generate(c *core.Ctx, u *Universe, p plan) (*Gen, error) {
 	g := &Gen{U: u, P: p}
-	res, err := runMC(c, u, "HttpGateMC", ConstCfg(Methods, Spellings, p.maxSpell, p.hdr, p.stacks)+
+	var eb errBox
+	var wg sync.WaitGroup
+	run := func(f func() error) {
+		wg.Add(1)
+		go func() {
+			defer wg.Done()
+			eb.set(f())
+		}()
+	}
+	run(func() error { return genCases(c, u, p, g) })
+	if p.histDepth > 0 {
+		run(func() error {
+			cfg := ConstCfg(Methods, Spellings, 1, false, p.histStacks, []bool{false}) +
+				fmt.Sprintf("  HistSpellings = %s\n  HistDepth = %d\n  HistHdrCross = %s\n  MwState = %q\n", qset(p.histSpellings), p.histDepth, tlaBool(p.histHdr), envOr("VERIF_C18_MWSTATE", "none")) +
+				"SPECIFICATION HSpec\nINVARIANT HGateInv\nINVARIANT HLiveInv\nINVARIANT HDetInv\nINVARIANT HEmitInv\nCHECK_DEADLOCK FALSE\n"
+			res, err := runMC(c, u, "HttpGateHist", cfg, g)
+			if err != nil {
+				return err
+			}
+			if g.Hists, err = decodeTagged(res, "HIST", Multi.key); err != nil {
+				return err
+			}
+			if len(g.Hists) == 0 {
+				return fmt.Errorf("TLC printed no history")
+			}
+			return nil
+		})
+	}
+	if len(p.concW) > 0 {
+		run(func() error {
+			cfg := ConstCfg(Methods, Spellings, 1, false, p.concStacks, []bool{false}) +
+				fmt.Sprintf("  ConcW = %s\n  ConcAll = %s\n  MwShare = %q\n", tlaBoolSet(p.concW), tlaBool(p.concAll), envOr("VERIF_C18_MWSHARE", "local")) +
+				"SPECIFICATION CSpec\nINVARIANT CGateInv\nINVARIANT CLiveInv\nINVARIANT CIndepInv\nINVARIANT CEmitInv\nCHECK_DEADLOCK FALSE\n"
+			res, err := runMC(c, u, "HttpGateConc", cfg, g)
+			if err != nil {
+				return err
+			}
+			if g.Concs, err = decodeTagged(res, "CONC", Multi.key); err != nil {
+				return err
+			}
+			if len(g.Concs) == 0 {
+				return fmt.Errorf("TLC printed no concurrent pair")
+			}
+			return nil
+		})
+	}
+	if p.buildDepth > 0 {
+		run(func() error {
+			cfg := ConstCfg(Methods, Spellings, 1, false, []string{"server"}, []bool{false}) +
+				fmt.Sprintf("  BuildDepth = %d\n  ProcState = %q\n", p.buildDepth, envOr("VERIF_C18_PROCSTATE", "perserver")) +
+				"SPECIFICATION PSpec\nINVARIANT PGateInv\nINVARIANT PLiveInv\nINVARIANT PIndepInv\nINVARIANT PEmitInv\nCHECK_DEADLOCK FALSE\n"
+			res, err := runMC(c, u, "HttpGateProc", cfg, g)
+			if err != nil {
+				return err
+			}
+			if g.Procs, err = decodeTagged(res, "PROC", ProcOrder.key); err != nil {
+				return err
+			}
+			if len(g.Procs) == 0 {
+				return fmt.Errorf("TLC printed no construction order")
+			}
+			return nil
+		})
+	}
+	wg.Wait()
+	if eb.err != nil {
+		return nil, eb.err
+	}
+	sort.Strings(g.SpecViol)
+	return g, nil
+}
+
+func genCases(c *core.Ctx, u *Universe, p plan, g *Gen) error {
+	res, err := runMC(c, u, "HttpGateMC", ConstCfg(Methods, Spellings, p.maxSpell, p.hdr, p.stacks, p.uiModes)+
 		"SPECIFICATION Spec\nINVARIANT GateInv\nINVARIANT LiveInv\nINVARIANT DetInv\nINVARIANT AgreeInv\nINVARIANT EmitInv\nCHECK_DEADLOCK FALSE\n", g)
 	if err != nil {
-		return nil, err
+		return err
 	}
 	if g.Cases, err = decodeTagged(res, "CASE", Case.key); err != nil {
-		return nil, err
+		return err
 	}
 	if len(g.Cases) == 0 {
-		return nil, errNoCases
+		return errNoCases
 	}
 	// binding self-check: the views of the path the spec reasons about are the views net/url
 	// gives for the target the spec printed
 	for _, cs := range g.Cases {
 		pu, err := url.ParseRequestURI(cs.Target)
 		if err != nil {
-			return nil, fmt.Errorf("target %q of case %s does not parse: %v", cs.Target, cs.key(), err)
+			return fmt.Errorf("target %q of case %s does not parse: %v", cs.Target, cs.key(), err)
 		}
 		if esc, dec := "/"+strings.Join(cs.Raw, "/"), "/"+strings.Join(cs.Dec, "/"); pu.EscapedPath() != esc || pu.Path != dec {
-			return nil, fmt.Errorf("case %s target %q: spec views raw=%q dec=%q, net/url gives EscapedPath=%q Path=%q",
+			return fmt.Errorf("case %s target %q: spec views raw=%q dec=%q, net/url gives EscapedPath=%q Path=%q",
 				cs.key(), cs.Target, esc, dec, pu.EscapedPath(), pu.Path)
 		}
 		chiView := pu.RawPath
@@ -255,40 +352,10 @@ func Generate(c *core.Ctx, u *Universe, p plan) (*Gen, error) {
 			chiView = pu.Path
 		}
 		if chiView != "/"+strings.Join(cs.Raw, "/") {
-			return nil, fmt.Errorf("case %s target %q: chi would route on %q, the spec on %q", cs.key(), cs.Target, chiView, "/"+strings.Join(cs.Raw, "/"))
+			return fmt.Errorf("case %s target %q: chi would route on %q, the spec on %q", cs.key(), cs.Target, chiView, "/"+strings.Join(cs.Raw, "/"))
 		}
 	}
-	if p.histDepth > 0 {
-		cfg := ConstCfg(Methods, Spellings, 1, false, p.histStacks) +
-			fmt.Sprintf("  HistSpellings = %s\n  HistDepth = %d\n  HistHdrCross = %s\n  MwState = %q\n", qset(p.histSpellings), p.histDepth, tlaBool(p.histHdr), envOr("VERIF_C18_MWSTATE", "none")) +
-			"SPECIFICATION HSpec\nINVARIANT HGateInv\nINVARIANT HLiveInv\nINVARIANT HDetInv\nINVARIANT HEmitInv\nCHECK_DEADLOCK FALSE\n"
-		res, err := runMC(c, u, "HttpGateHist", cfg, g)
-		if err != nil {
-			return nil, err
-		}
-		if g.Hists, err = decodeTagged(res, "HIST", Multi.key); err != nil {
-			return nil, err
-		}
-		if len(g.Hists) == 0 {
-			return nil, fmt.Errorf("TLC printed no history")
-		}
-	}
-	if len(p.concW) > 0 {
-		cfg := ConstCfg(Methods, Spellings, 1, false, p.concStacks) +
-			fmt.Sprintf("  ConcW = %s\n  ConcAll = %s\n  MwShare = %q\n", tlaBoolSet(p.concW), tlaBool(p.concAll), envOr("VERIF_C18_MWSHARE", "local")) +
-			"SPECIFICATION CSpec\nINVARIANT CGateInv\nINVARIANT CLiveInv\nINVARIANT CIndepInv\nINVARIANT CEmitInv\nCHECK_DEADLOCK FALSE\n"
-		res, err := runMC(c, u, "HttpGateConc", cfg, g)
-		if err != nil {
-			return nil, err
-		}
-		if g.Concs, err = decodeTagged(res, "CONC", Multi.key); err != nil {
-			return nil, err
-		}
-		if len(g.Concs) == 0 {
-			return nil, fmt.Errorf("TLC printed no concurrent pair")
-		}
-	}
-	return g, nil
+	return nil
 }
 
 func envOr(name, def string) string {
@@ -308,7 +375,7 @@ type VResult struct {
 // ValidateTrace runs pass A + pass B on one trace.
 func ValidateTrace(u *Universe, trace []byte) (*VResult, error) {
 	mod, body := genModule("HttpGateTrace")
-	cfg := ConstCfg(Methods, Spellings, 1, false, bothStacks) + "  TraceFile = \"trace.ndjson\"\nSPECIFICATION TSpec\nINVARIANT Done\nCHECK_DEADLOCK FALSE\n"
+	cfg := ConstCfg(Methods, Spellings, 1, false, bothStacks, bothBools) + "  TraceFile = \"trace.ndjson\"\nSPECIFICATION TSpec\nINVARIANT Done\nCHECK_DEADLOCK FALSE\n"
 	res, err := tlc.Run(tlc.Opts{
 		Module: mod, CfgText: cfg, Workers: 1, Timeout: 20 * time.Minute, HeapGB: 4,
 		Files: map[string][]byte{mod + ".tla": body, ConstModule + ".tla": u.TLA(), "trace.ndjson": trace},
@@ -408,10 +475,10 @@ func runCases(cases []Case, body string, reps, workers int) ([]CaseLine, int, er
 					}
 				}
 			}()
-			get := func(write bool, stack string, r int) (*Gate, error) {
-				k := fmt.Sprintf("%v|%s", write, stack)
+			get := func(write bool, stack string, ui bool, r int) (*Gate, error) {
+				k := fmt.Sprintf("%v|%s|%v", write, stack, ui)
 				for len(gates[k]) <= r {
-					g, err := NewGate(write, stack)
+					g, err := NewGate(write, stack, ui)
 					if err != nil {
 						return nil, err
 					}
@@ -428,9 +495,9 @@ func runCases(cases []Case, body string, reps, workers int) ([]CaseLine, int, er
 				if cs.Stack == "" {
 					cs.Stack = "server"
 				}
-				ln := CaseLine{K: "case", Stack: cs.Stack, W: cs.W, Req: cs.Req, Obs: []Obs{}}
+				ln := CaseLine{K: "case", Stack: cs.Stack, UI: cs.UI, W: cs.W, Req: cs.Req, Obs: []Obs{}}
 				for r := 0; r < reps; r++ {
-					g, err := get(cs.W, cs.Stack, r)
+					g, err := get(cs.W, cs.Stack, cs.UI, r)
 					if err != nil {
 						eb.set(err)
 						return
@@ -444,8 +511,8 @@ func runCases(cases []Case, body string, reps, workers int) ([]CaseLine, int, er
 					ln.Obs = append(ln.Obs, ob)
 					if ob.Panic == "hang" {
 						// the handler of that server is still blocked: use a new one
-						if g2, err := NewGate(cs.W, cs.Stack); err == nil {
-							gates[fmt.Sprintf("%v|%s", cs.W, cs.Stack)][r] = g2
+						if g2, err := NewGate(cs.W, cs.Stack, cs.UI); err == nil {
+							gates[fmt.Sprintf("%v|%s|%v", cs.W, cs.Stack, cs.UI)][r] = g2
 						}
 					}
 				}
@@ -486,7 +553,7 @@ func runCases(cases []Case, body string, reps, workers int) ([]CaseLine, int, er
 func runHists(hists []Multi, body string, workers int) ([]HistLine, int, error) {
 	var eb errBox
 	serveOn := func(m Multi, reqs []Req) ([]Obs, error) {
-		g, err := NewGate(m.W, m.Stack)
+		g, err := NewGate(m.W, m.Stack, false)
 		if err != nil {
 			return nil, err
 		}
@@ -566,7 +633,7 @@ func runConcs(concs []Multi, body string, dur time.Duration, workers int) ([]Con
 	}
 	parallel(len(concs), par, func(i int) {
 		m := concs[i]
-		g, err := NewGate(m.W, m.Stack)
+		g, err := NewGate(m.W, m.Stack, false)
 		if err != nil {
 			eb.set(err)
 			return
@@ -604,8 +671,14 @@ func ReplayAndValidate(c *core.Ctx, g *Gen, witnesses []Case) (*Outcome, error) 
 	if err != nil {
 		return nil, err
 	}
-	out.Requests = n1 + n2 + n3
-	out.Kinds["case"], out.Kinds["hist"], out.Kinds["conc"] = len(clines), len(hlines), len(klines)
+	plines, n4, err := runProcs(g.Procs, g.U.Body)
+	if err != nil {
+		return nil, err
+	}
+	clines = append(clines, plines...)
+	out.Kinds["proc_lines"], out.Kinds["requests_proc"] = len(plines), n4
+	out.Requests = n1 + n2 + n3 + n4
+	out.Kinds["case"], out.Kinds["hist"], out.Kinds["conc"] = len(clines)-len(plines), len(hlines), len(klines)
 	out.Kinds["requests_case"], out.Kinds["requests_hist"], out.Kinds["requests_conc"] = n1, n2, n3
 	out.ReplayS = time.Since(t0).Seconds()
 	var raw []json.RawMessage
@@ -616,7 +689,11 @@ func ReplayAndValidate(c *core.Ctx, g *Gen, witnesses []Case) (*Outcome, error) 
 		kinds = append(kinds, kind)
 	}
 	for _, l := range clines {
-		add("case", l)
+		if len(l.Order) > 0 {
+			add("proc", l)
+		} else {
+			add("case", l)
+		}
 	}
 	for _, l := range hlines {
 		add("hist", l)
@@ -701,6 +778,9 @@ func ReplayAndValidate(c *core.Ctx, g *Gen, witnesses []Case) (*Outcome, error) 
 	}
 	for _, h := range g.Concs {
 		distinct["conc|"+h.key()] = true
+	}
+	for _, l := range plines {
+		distinct[fmt.Sprintf("proc|%v|%d|%s", l.Order, l.Inst, l.Req.key())] = true
 	}
 	out.Nontriv = len(distinct)
 	for _, k := range []int{0, len(clines) / 2} {
@@ -809,13 +889,29 @@ func describe(f Finding) string {
 		var l CaseLine
 		json.Unmarshal(f.Line, &l)
 		ob, _ := json.Marshal(l.Obs)
-		return fmt.Sprintf("monitor %s failed: %s on the %s stack with write operations %s (template %s, spelling %v; the instances had served other cases before) observed %s",
-			f.Monitor, rq(l.Req), l.Stack, onOff(l.W), l.T, l.Sps, ob)
+		if len(l.Order) > 0 {
+			var ord []string
+			for _, w := range l.Order {
+				ord = append(ord, "write "+onOff(w))
+			}
+			return fmt.Sprintf("monitor %s failed: in a fresh process that constructed servers in the order [%s], server #%d (write operations %s) answered %s with %s",
+				f.Monitor, strings.Join(ord, ", "), l.Inst, onOff(l.W), rq(l.Req), ob)
+		}
+		mode := ""
+		if l.UI {
+			mode = ", SWAGGER_UI set"
+		}
+		return fmt.Sprintf("monitor %s failed: %s on the %s stack%s with write operations %s (template %s, spelling %v; the instances had served other cases before) observed %s",
+			f.Monitor, rq(l.Req), l.Stack, mode, onOff(l.W), l.T, l.Sps, ob)
 	}
 }
 
 // Check runs the check of C18.
 func Check(c *core.Ctx) int {
+	if os.Getenv(childEnv) != "" {
+		return childMain()
+	}
+	defer CleanupScratch()
 	if c.Replay != "" {
 		return Replay(c)
 	}
@@ -828,34 +924,55 @@ func Check(c *core.Ctx) int {
 	var notes []string
 	reported, gateReported := 0, 0
 	gateFindings := map[string]int{}
+	// the universes are generated, replayed and validated side by side; reporting is in order
+	type uniRes struct {
+		u   *Universe
+		g   *Gen
+		out *Outcome
+		err error
+	}
+	var wit []Case
+	for _, kf := range known {
+		wit = append(wit, witnessCases(kf)...)
+	}
+	results := make([]uniRes, len(plans))
+	var uwg sync.WaitGroup
+	usem := make(chan struct{}, len(plans))
+	if c.Thorough() {
+		usem = make(chan struct{}, 1) // the thorough universes are large: one after the other
+	}
 	for ui, p := range plans {
-		u, err := BuildUniverse(c.Seed + int64(ui)*1000003)
-		if err != nil {
-			fmt.Println("INCONCLUSIVE:", err)
+		uwg.Add(1)
+		go func(ui int, p plan) {
+			defer uwg.Done()
+			usem <- struct{}{}
+			defer func() { <-usem }()
+			r := &results[ui]
+			if r.u, r.err = BuildUniverse(c.Seed + int64(ui)*1000003); r.err != nil {
+				return
+			}
+			c.Logf("universe %d: %d templates, %d operations in oapi.yaml, %d embedded; stacks %v, SWAGGER_UI %v, spelling sequences <= %d, headers %v, histories depth %d over %v on %v, concurrency %v on %v, construction orders of %d",
+				ui, len(r.u.Templates), len(r.u.DocOps), len(r.u.EmbOps), p.stacks, p.uiModes, p.maxSpell, p.hdr, p.histDepth, p.histSpellings, p.histStacks, p.concW, p.concStacks, p.buildDepth)
+			if r.g, r.err = Generate(c, r.u, p); r.err != nil {
+				return
+			}
+			c.Logf("universe %d: TLC %d states (%d distinct): %d cases, %d histories, %d concurrent pairs, %d construction orders, specviol=%q (%.1fs)", ui, r.g.States, r.g.Distinct, len(r.g.Cases), len(r.g.Hists), len(r.g.Concs), len(r.g.Procs), r.g.SpecViol, r.g.Wall)
+			r.out, r.err = ReplayAndValidate(c, r.g, wit)
+		}(ui, p)
+	}
+	uwg.Wait()
+	for ui, p := range plans {
+		r := results[ui]
+		if r.err != nil {
+			fmt.Println("INCONCLUSIVE:", r.err)
 			return core.ExitInconclusive
 		}
+		u, g, out := r.u, r.g, r.out
 		for _, n := range u.Notes {
 			c.Logf("note: %s", n)
 		}
 		notes = append(notes, u.Notes...)
-		c.Logf("universe %d: %d templates, %d operations in oapi.yaml, %d embedded; stacks %v, spelling sequences <= %d, headers %v, histories depth %d over %v on %v, concurrency %v on %v",
-			ui, len(u.Templates), len(u.DocOps), len(u.EmbOps), p.stacks, p.maxSpell, p.hdr, p.histDepth, p.histSpellings, p.histStacks, p.concW, p.concStacks)
-		g, err := Generate(c, u, p)
-		if err != nil {
-			fmt.Println("INCONCLUSIVE:", err)
-			return core.ExitInconclusive
-		}
-		c.Logf("universe %d: TLC %d states (%d distinct): %d cases, %d histories, %d concurrent pairs, specviol=%q (%.1fs)", ui, g.States, g.Distinct, len(g.Cases), len(g.Hists), len(g.Concs), g.SpecViol, g.Wall)
 		specLeads = append(specLeads, g.SpecViol...)
-		var wit []Case
-		for _, kf := range known {
-			wit = append(wit, witnessCases(kf)...)
-		}
-		out, err := ReplayAndValidate(c, g, wit)
-		if err != nil {
-			fmt.Println("INCONCLUSIVE:", err)
-			return core.ExitInconclusive
-		}
 		outs = append(outs, out)
 		c.Logf("universe %d: %d requests served by real router instances (%.1fs) %v, %d trace lines validated in %d TLC runs (%.1fs), %d findings, %d drift; stages %v effects %v",
 			ui, out.Requests, out.ReplayS, out.Kinds, out.Lines, out.Traces, out.ValidateS, len(out.Findings), len(out.Drift), out.Stages, out.Effects)
@@ -954,7 +1071,7 @@ func writeEvidence(c *core.Ctx, plans []plan, outs []*Outcome, violations int, s
 			"cases": len(o.Gen.Cases), "histories": len(o.Gen.Hists), "concurrent_pairs": len(o.Gen.Concs), "lines_and_requests_by_kind": o.Kinds,
 			"requests": o.Requests, "deciding_stage_histogram": o.Stages, "observed_effect_histogram": o.Effects,
 			"param_values": o.Gen.U.ParamVal, "templates": len(o.Gen.U.Templates), "replay_s": o.ReplayS, "validate_s": o.ValidateS,
-			"stacks": p.stacks, "max_spelling_sequence": p.maxSpell, "repetitions": p.reps, "header_classes_crossed": p.hdr,
+			"stacks": p.stacks, "server_modes_swagger_ui": p.uiModes, "construction_order_depth": p.buildDepth, "construction_orders": len(o.Gen.Procs), "max_spelling_sequence": p.maxSpell, "repetitions": p.reps, "header_classes_crossed": p.hdr,
 			"history_depth": p.histDepth, "history_spellings": p.histSpellings, "history_stacks": p.histStacks,
 			"concurrency_settings": p.concW, "concurrency_all_pairs": p.concAll, "concurrency_stacks": p.concStacks, "concurrency_ms_per_pair": p.concDur.Milliseconds(),
 		})
@@ -1042,7 +1159,16 @@ func Replay(c *core.Ctx) int {
 	default:
 		var l CaseLine
 		json.Unmarshal(rf.Finding.Line, &l)
-		ls, _, err := runCases([]Case{{Req: l.Req, W: l.W, Stack: l.Stack}}, rf.Universe.Body, rf.Reps, 1)
+		if len(l.Order) > 0 {
+			ls, _, err := runProcs([]ProcOrder{{Order: l.Order, Reqs: []Req{l.Req}}}, rf.Universe.Body)
+			if err != nil || len(ls) < l.Inst {
+				fmt.Println("INCONCLUSIVE:", err)
+				return core.ExitInconclusive
+			}
+			line = ls[l.Inst-1]
+			break
+		}
+		ls, _, err := runCases([]Case{{Req: l.Req, W: l.W, Stack: l.Stack, UI: l.UI}}, rf.Universe.Body, rf.Reps, 1)
 		if err != nil {
 			fmt.Println("INCONCLUSIVE:", err)
 			return core.ExitInconclusive
@@ -1065,4 +1191,103 @@ func Replay(c *core.Ctx) int {
 	}
 	fmt.Println("not reproduced")
 	return core.ExitOK
+}
+
+// construction orders: each in a fresh child process ---------------------------------------
+
+const childEnv = "VERIF_C18_CHILD"
+
+type childJob struct {
+	Order []bool `json:"order"`
+	Reqs  []Req  `json:"reqs"`
+	Body  string `json:"body"`
+}
+
+// childMain runs in the child: constructs the servers in the given order, then sends every
+// request to every instance and prints one case line per (instance, request).
+func childMain() int {
+	b, err := os.ReadFile(os.Getenv(childEnv))
+	if err != nil {
+		fmt.Fprintln(os.Stderr, err)
+		return core.ExitInconclusive
+	}
+	var job childJob
+	if err := json.Unmarshal(b, &job); err != nil {
+		fmt.Fprintln(os.Stderr, err)
+		return core.ExitInconclusive
+	}
+	var gates []*Gate
+	for _, w := range job.Order {
+		g, err := NewGate(w, "server", false)
+		if err != nil {
+			fmt.Fprintln(os.Stderr, err)
+			return core.ExitInconclusive
+		}
+		gates = append(gates, g)
+	}
+	enc := json.NewEncoder(os.Stdout)
+	for i, g := range gates {
+		for _, r := range job.Reqs {
+			ob, err := g.Do(r.M, r.Target, job.Body, r.H)
+			if err != nil {
+				fmt.Fprintln(os.Stderr, err)
+				return core.ExitInconclusive
+			}
+			enc.Encode(CaseLine{K: "case", Stack: "server", W: job.Order[i], Req: r, Obs: []Obs{ob}, Order: job.Order, Inst: i + 1})
+			if ob.Panic == "hang" {
+				return core.ExitOK
+			}
+		}
+	}
+	return core.ExitOK
+}
+
+// runProcs runs every construction order in its own fresh process.
+func runProcs(procs []ProcOrder, body string) ([]CaseLine, int, error) {
+	if len(procs) == 0 {
+		return nil, 0, nil
+	}
+	exe, err := os.Executable()
+	if err != nil {
+		return nil, 0, err
+	}
+	dir := core.Scratch("c18-proc")
+	defer os.RemoveAll(dir)
+	results := make([][]CaseLine, len(procs))
+	var eb errBox
+	parallel(len(procs), 4, func(i int) {
+		jb, _ := json.Marshal(childJob{Order: procs[i].Order, Reqs: procs[i].Reqs, Body: body})
+		path := fmt.Sprintf("%s/job%d.json", dir, i)
+		if err := os.WriteFile(path, jb, 0o644); err != nil {
+			eb.set(err)
+			return
+		}
+		ctx, cancel := context.WithTimeout(context.Background(), 5*time.Minute)
+		defer cancel()
+		cmd := exec.CommandContext(ctx, exe, "C18")
+		cmd.Env = append(os.Environ(), childEnv+"="+path)
+		var stdout, stderr bytes.Buffer
+		cmd.Stdout, cmd.Stderr = &stdout, &stderr
+		if err := cmd.Run(); err != nil {
+			eb.set(fmt.Errorf("construction-order child %v: %v: %s", procs[i].Order, err, stderr.String()))
+			return
+		}
+		dec := json.NewDecoder(&stdout)
+		for dec.More() {
+			var l CaseLine
+			if err := dec.Decode(&l); err != nil {
+				eb.set(fmt.Errorf("construction-order child %v printed garbage: %v", procs[i].Order, err))
+				return
+			}
+			results[i] = append(results[i], l)
+		}
+		if len(results[i]) == 0 {
+			eb.set(fmt.Errorf("construction-order child %v printed nothing: %s", procs[i].Order, stderr.String()))
+		}
+	})
+	var out []CaseLine
+	for _, r := range results {
+		out = append(out, r...)
+	}
+	return out, len(out), eb.err
 }
